@@ -123,7 +123,7 @@ def gen(seed, idx, tier):
         scn["device"]["terminals"][-1]["inside"] = True
         scn["allow_empty_terminal"] = True
     elif cls == "seed-mismatch":
-        defect["seed_change"] = rnd.choice(["film", "layer", "probes", "terminals", "holes", "name", "hole-moved", "one-terminal-less"])
+        defect["seed_change"] = rnd.choice(["film", "layer", "probes", "terminals", "holes", "name", "hole-moved", "one-terminal-less", "inplace-layer", "inplace-layer", "inplace-move"])
     elif cls == "A-shape":
         defect["shape"] = rnd.choice(["scalar", "column", "short", "plain-col1", "plain-flat", "plain-short"])
         if defect["shape"].startswith("plain-"):
@@ -200,6 +200,13 @@ def run(scn):
                 other["device"]["layer"] = dict(other["device"]["layer"], lam=other["device"]["layer"]["lam"] * 2)
             elif ch == "probes":
                 other["device"]["probes"] = None if other["device"]["probes"] else [[0.1, 0.1], [-0.1, 0.1]]
+            elif ch in ("inplace-layer", "inplace-move"):
+                # the seed is computed on the very Device object that is then edited in place and simulated
+                # again: the Solution's own record of its device must not follow the edit
+                other["device_derived"] = "copy"  # a private object, never the generator's cached device
+                if ch == "inplace-move":
+                    other["device"]["probes"] = None
+                    scn["device"]["probes"] = None
             elif ch == "name":
                 other["device"]["name"] = "another_device"
             elif ch in ("holes", "hole-moved"):
@@ -228,7 +235,17 @@ def run(scn):
             if h0.outcome != "solution":
                 raise Discard(f"seed run did not complete: {h0.outcome}")
             seed_sol = h0.solution
-        sim, h = run_scenario(scn, seed_solution=seed_sol)
+            if ch in ("inplace-layer", "inplace-move"):
+                dev_obj = h0.device
+                if ch == "inplace-layer":
+                    attr = substream(1, "inplace", scn["device"]["film"].get("npts", 0)).choice(["london_lambda", "gamma", "u", "thickness"])
+                    setattr(dev_obj.layer, attr, getattr(dev_obj.layer, attr) * 1.5 + (0.5 if attr == "gamma" else 0.0))
+                else:
+                    xi_ = float(scn["device"]["layer"]["xi"])
+                    dev_obj.translate(0.4 * xi_, -0.3 * xi_, inplace=True)
+                scn.pop("device_history", None)
+                scn.pop("device_derived", None)
+        sim, h = run_scenario(scn, seed_solution=seed_sol, device_object=dev_obj if d["class"] == "seed-mismatch" and d.get("seed_change") in ("inplace-layer", "inplace-move") else None)
         sims.append(sim)
         V = []
         where = {k: v for k, v in d.items()}
